@@ -1,15 +1,51 @@
 """C01 — every started operation completes exactly once, never before start."""
+from ..atomic import AtomicPart
 from ..evt import EventPart
 from ..runner import run_check
 
+# schedule level: the REAL when_all / when_all_range / stop_when under the controlled scheduler
+# (harness/rt/scn_c0104.cpp); each scenario has a Lean configuration of the same name
+# (Proto/WhenAll.lean, Proto/StopWhen.lean).  The other scenarios of that file run under C04.
+WA_SCENARIOS = ["wa1_stop", "wa2_race", "wa2_stop", "wa2_valinl_stop", "wa3_fail", "wa3_fail_inl", "war2_stop"]
+SW_SCENARIOS = ["sw_race", "sw_stop", "sw_mix", "sw_trigger", "sw_src_err"]
+QUICK = dict(preemptions=2, max_execs=1000)
+THOROUGH = dict(preemptions=3, max_execs=60000)
+RANDOM = (300, 5000)
+
+
+def atomic_parts():
+    return [
+        AtomicPart("whenall", "scn_c0104.cpp", ["inplace_stop_token.cpp"], "whenall", WA_SCENARIOS,
+                   quick=QUICK, thorough=THOROUGH, random_execs=RANDOM),
+        AtomicPart("stopwhen", "scn_c0104.cpp", ["inplace_stop_token.cpp"], "stopwhen", SW_SCENARIOS,
+                   quick=QUICK, thorough=THOROUGH, random_execs=RANDOM),
+    ]
+
 
 def run(tier, seed, replay=None):
-    parts = [EventPart("evt", report_crashes=False)]
+    parts = [EventPart("evt", report_crashes=False)] + atomic_parts()
     return run_check(
-        "C01", tier, seed, ["UnifexModel.Props.C01"], parts,
-        rule="generated sender expressions + event scripts (see C05) on the real library with a counting root receiver: completion before start, second completion, "
-             "or no completion at quiescence (all leaves drained) are monitor violations; every trace is also compared with the Lean calculus",
-        assumptions=["external events serialised; concurrent completions: see the atomic-level parts", "leaves obey the sender contract (complete once)"],
-        trusted_extra=["harness/evt/evt.cpp", "tools/evt.py", "g++ 12, ASan/UBSan"],
+        "C01", tier, seed,
+        ["UnifexModel.Props.C01", "UnifexModel.Props.C01_Atomic", "UnifexModel.Props.C01_AtomicInst", "UnifexModel.Props.C01_AtomicSW"], parts,
+        rule="(event level) generated sender expressions + event scripts (see C05) on the real library with a counting root receiver: completion before start, second completion, "
+             "or no completion at quiescence (all leaves drained) are monitor violations; every trace is also compared with the Lean calculus. "
+             "(schedule level) the real when_all/when_all_range/stop_when with manual leaves completed from 1-3 threads plus a stop thread under the controlled scheduler "
+             "(DFS with preemption bound, random and PCT walks); monitors: root signalled twice / never at quiescence / before all children completed / op-state storage written after "
+             "destruction; a case = one distinct observable history, non-trivial = admitted by the Lean protocol model of the same name",
+        assumptions=["event level: external events serialised (concurrent completions are the atomic-level parts)", "leaves obey the sender contract (complete once)",
+                     "schedule level: sequentially consistent atomics (memory orders ignored); the operation has been started before the threads race "
+                     "(stop before/during start() is covered at the event level); leaves deregister their stop callback before completing",
+                     "parametric theorems (all N, all schedules) for when_all/when_all_range; stop_when and deadlock-freedom/result precedence per instance"],
+        trusted_extra=["harness/evt/evt.cpp", "tools/evt.py", "g++ 12, ASan/UBSan", "harness/rt (cooperative scheduler, __tsan_* shim)", "Core/Admit.lean trace-inclusion test"],
         explanation="Theorems (Props/C01): root_at_most_once (any expression, any leaf script, ANY event sequence incl. nonsense events: at most one completion signal), "
+<<<<<<< HEAD
                     "root_silent_before_start (no output and no signal before start / if never started), no_lost_completion (a running operation always has a pending leaf below it: coherence invariant Coh proved for every clause, Calc/Coh.lean), finishing_signals / start_finishing_signals (becoming finished = signalling), built on signal_finishes + finished_inert + idle_silent.")
+=======
+                    "root_silent_before_start (no output and no signal before start / if never started), built on signal_finishes + finished_inert + idle_silent for every algorithm clause. "
+                    "Props/C01_Atomic (when_all/when_all_range atomic protocol, ALL N >= 1, all configurations, all schedules, by invariant induction): deliver_at_most_once, elected_once, "
+                    "refcount_counts_owners, deliver_only_after_all_children, deliver_happens, exactly_once_at_end, result_precedence (receiver-stop > first error/done > values), "
+                    "no_result_before_signal; Props/C01_AtomicInst, instances by kernel reflection (safe = also deadlock-freedom of the blocking deregistrations): wa2_race, wa1_stop, "
+                    "wa2_valinl_stop, wa3_fail_inl; Props/C01_AtomicSW: stop_when instances sw_race, sw_mix, "
+                    "sw_trigger, sw_src_err (exactly once, after both children, result = source's). Scenarios wa2_stop, wa3_fail, war2_stop, sw_stop are tied to the same models (trace inclusion) "
+                    "but too large for kernel reflection; for when_all they are covered by the parametric theorems.")
+>>>>>>> wt_c0104
